@@ -186,6 +186,24 @@ func (r *recState) checkpoint() {
 		sort.Strings(bad)
 		r.problem("coverage", "coverage differs from the tree: "+firstWords(bad[0]), strings.Join(bad, "; "))
 	}
+	// the two tables hold exactly one entry per kernel watch and agree with each other
+	if t := fsnotify.VerifTables(r.w, false); !t.Unavailable {
+		var tb []string
+		if len(t.Wd) != len(marked) || len(t.Path) != len(marked) {
+			tb = append(tb, fmt.Sprintf("table sizes wd=%d path=%d, kernel watches %d", len(t.Wd), len(t.Path), len(marked)))
+		}
+		for pth, wd := range t.Path {
+			if e, ok := t.Wd[wd]; !ok {
+				tb = append(tb, fmt.Sprintf("path table entry %q -> wd %d has no wd-table entry (dangling)", pth, wd))
+			} else if e.Path != pth {
+				tb = append(tb, fmt.Sprintf("path table entry %q -> wd %d, whose watch says %q (stale key)", pth, wd, e.Path))
+			}
+		}
+		if len(tb) > 0 {
+			sort.Strings(tb)
+			r.problem("tables", "internal tables out of step with the kernel watches: "+firstWords(tb[0]), strings.Join(tb, "; "))
+		}
+	}
 	// WatchList: nothing outside the active trees; every active root listed
 	l := x.WatchList(r.w)
 	for _, p := range l {
@@ -336,6 +354,10 @@ func recScenario(p map[string]any) *Scenario {
 				}
 				if pr.Cat == "name" {
 					out = append(out, Violation{Property: "C08", Signature: "recursive: " + pr.Cat + ": " + pr.Sig, Detail: pr.Detail})
+				}
+				if pr.Cat == "tables" || pr.Cat == "coverage" {
+					// bookkeeping out of step with the kernel is C12's business under recursion as well
+					out = append(out, Violation{Property: "C12", Signature: "recursive: " + pr.Cat + ": " + pr.Sig, Detail: pr.Detail})
 				}
 			}
 		}
